@@ -1001,6 +1001,11 @@ func (w *world) buildObs(st simkit.Step) *gossipv1.SignedObservation {
 	case 12:
 		ob.Signature[64] = 27 + ob.Signature[64]
 		fault = "obs-v27"
+	case 13:
+		// the genuine digest preceded by extra bytes: a hash field that is not 32 bytes long is not a
+		// digest, whatever its last 32 bytes are
+		ob.Hash = append(bytes.Repeat([]byte{byte(0x80 | st.D)}, 1+int(st.D&7)), dig...)
+		fault = "obs-long-hash"
 	}
 	if fault != "" {
 		w.stats.Fault(fault)
